@@ -96,6 +96,9 @@ def gen_spec(rs, p=None):
     nenv = rs.randint(*p["n_envs"])
     envs = ENVS[:nenv]
     labels = rs.shuffle(LABELS)[:ns]
+    if ns > len(labels):
+        # many species: plain numbered names after the usual ones
+        labels = labels + ["S%d" % k for k in range(len(labels), ns)]
 
     # ---- space
     if rs.chance(p["p_graph"]):
@@ -703,6 +706,16 @@ def sibling_spec(rs, spec, p=None, nr_delta=0):
     import copy
     p = _merge(p)
     s = copy.deepcopy(spec)
+    if len(s["species"]) >= 2 and rs.sub("perm").chance(0.25):
+        # the same reactions (same equations, same constants) over the same species declared in another order
+        order = rs.sub("perm2").shuffle(list(range(len(s["species"]))))
+        m0 = Model(spec)
+        s["species"] = [s["species"][k] for k in order]
+        for key in ("state", "chem"):
+            if s.get(key) is not None:
+                arr = s[key]
+                s[key] = [arr[k * m0.nc + i] for k in order for i in range(m0.nc)]
+        return s
     labels = [x["label"] for x in s["species"]]
     nenv = len(s["envs"])
     m = Model(spec)
